@@ -6,6 +6,7 @@ package p9
 
 import (
 	"fmt"
+	"time"
 	"math/rand"
 	"strings"
 )
@@ -466,6 +467,30 @@ func vhsrvRun(seed int64, n int, tune func(*vhsrvGen, *vhsrvBackend), faultStep,
 		h.Steps = append(h.Steps, st)
 		g.update(st)
 		if st.Reduced {
+			// The panic hit the map-order dependent part of a rename: the model cannot follow the state,
+			// but the server must keep answering.  Probe (not compared): clunk every fid the shadow knows;
+			// a request that gets no reply (3 x 2 s) means a lock was left behind.
+			w.b.mu.Lock()
+			w.b.errProb = 0
+			w.b.mu.Unlock()
+			w.timeout = 2 * time.Second
+			for c := 0; c < nconn; c++ {
+				for f := uint64(0); f < 6; f++ {
+					if _, ok := g.shadow[c][f]; !ok {
+						continue
+					}
+					var err error
+					for try := 0; try < 3; try++ {
+						if _, err = w.do(vhsrvReq{C: c, T: "Tclunk", N: []uint64{f}, S: []string{}}); err == nil || !strings.Contains(err.Error(), "timeout") {
+							break
+						}
+					}
+					if err != nil {
+						h.Broken = fmt.Sprintf("after a panic inside a rename notification the server stopped answering: %v (Tclunk fid %d on connection %d)", err, f, c)
+						return h
+					}
+				}
+			}
 			break
 		}
 	}
